@@ -4,7 +4,7 @@ use swc_core::{
     ecma::{
         ast::*,
         atoms::Atom,
-        utils::{quote_ident, quote_str},
+        utils::{is_valid_prop_ident, quote_ident, quote_str},
     },
     plugin::errors::HANDLER,
 };
@@ -322,7 +322,7 @@ fn transform_modifiers(modifiers: BTreeSet<Atom>, quote_prop: bool) -> Option<Ex
                 .into_iter()
                 .map(|modifier| {
                     PropOrSpread::Prop(Box::new(Prop::KeyValue(KeyValueProp {
-                        key: if quote_prop {
+                        key: if quote_prop || !is_valid_prop_ident(&modifier) {
                             PropName::Str(quote_str!(modifier))
                         } else {
                             PropName::Ident(quote_ident!(modifier))
